@@ -743,6 +743,27 @@ fn asm_identifier(args: LexArgs) -> OffsetAndTokenType {
     }
 }
 
+#[cfg(feature = "verif")]
+pub(crate) fn verif_ident_end_generic(input: &str, offset: usize) -> usize {
+    find_identifier_end_generic(input, offset)
+}
+#[cfg(feature = "verif")]
+pub(crate) fn verif_ident_end_avx2(input: &str, offset: usize) -> Option<usize> {
+    #[cfg(target_arch = "x86_64")]
+    {
+        if is_x86_feature_detected!("avx2") {
+            // SAFETY: we just checked that the required intrinsics are supported.
+            return Some(unsafe { find_identifier_end_avx2(input, offset) });
+        }
+    }
+    let _ = (input, offset);
+    None
+}
+#[cfg(feature = "verif")]
+pub(crate) fn verif_ident_end_dispatch(input: &str, offset: usize) -> usize {
+    find_identifier_end(input, offset)
+}
+
 // endregion: identifiers/keywords
 
 // region: literals
